@@ -9,6 +9,7 @@
 package main
 
 import (
+	"bytes"
 	"context"
 	"encoding/hex"
 	"encoding/json"
@@ -363,14 +364,18 @@ func exactCopy(b []byte) []byte {
 
 func runEntry(c *c04Case, data []byte, obs *c04Obs) error {
 	switch c.Entry {
-	case "unmarshal":
+	case "unmarshal", "reader":
 		t, err := typeOf(c.T)
 		if err != nil {
 			return err
 		}
 		p := reflect.New(t).Interface()
 		var derr error
-		if c.Opts == nil {
+		if c.Entry == "reader" {
+			// the same bytes handed over by an io.Reader (UnmarshalFromReader): the decoder refills its own
+			// buffer; what it reserves must not depend on the lengths the input announces
+			derr = hio.Formatter{Simple: c.Mode != "ref"}.UnmarshalFromReader(bytes.NewReader(data), p)
+		} else if c.Opts == nil {
 			derr = hio.Formatter{Simple: c.Mode != "ref"}.Unmarshal(data, p)
 		} else {
 			derr = unmarshalWith(c.Opts, c.Mode != "ref", data, p)
